@@ -53,6 +53,11 @@ impl MinCase {
     }
 }
 
+/// `sched` may carry `/dup<d>`: records i and i+d (and so on) share an id
+pub fn dup_of(sched: &str) -> usize {
+    sched.split("/dup").nth(1).and_then(|x| x.parse().ok()).unwrap_or(0)
+}
+
 pub struct MinOut {
     pub result: Result<(), String>,
     pub text: String,
@@ -60,13 +65,15 @@ pub struct MinOut {
 }
 
 pub fn run_min(c: &MinCase, m2s: bool, work: &str, uid: &str) -> MinOut {
+    crate::p_file::ID_MOD.store(dup_of(&c.sched), std::sync::atomic::Ordering::SeqCst);
     let inp = write_input(work, uid, &c.recs, "fa");
+    crate::p_file::ID_MOD.store(0, std::sync::atomic::Ordering::SeqCst);
     let outp = format!("{}/min_{}.txt", work, uid);
     let _ = std::fs::remove_file(&outp);
     if stale_case(&c.req()) {
         plant_file(&outp, c.recs.iter().map(|r| r.len() * 4 + 40).sum());
     }
-    install_sched(&c.sched);
+    install_sched(c.sched.split("/dup").next().unwrap_or("free"));
     let result = catch(std::panic::AssertUnwindSafe(|| {
         if m2s {
             misc::minimisers::bin_sequences(c.w, c.m, &inp, &outp, c.threads)
@@ -125,7 +132,8 @@ pub fn eval_min(c: &MinCase, model: &Model, work: &str, uid: &str, traces: &mut 
     let recs_field = if c.recs.is_empty() {
         "-".to_string()
     } else {
-        c.recs.iter().enumerate().map(|(i, r)| format!("{}:{}", hex(format!("r{}", i).as_bytes()), hex(r))).collect::<Vec<_>>().join(",")
+        let d = dup_of(&c.sched);
+        c.recs.iter().enumerate().map(|(i, r)| format!("{}:{}", hex(format!("r{}", if d > 0 { i % d } else { i }).as_bytes()), hex(r))).collect::<Vec<_>>().join(",")
     };
     let ans = model.query(&[format!("s2m {} {} {}", c.w, c.m, recs_field)]);
     let f: Vec<&str> = ans[0].split('|').collect();
@@ -359,7 +367,17 @@ pub fn run_c10(tier: &str, seed: u64, model: &Model, corpus_lines: Vec<String>, 
             1 => format!("jitter:{}", rng.below(1 << 30) + 1),
             _ => format!("serialrand:{}", rng.below(1 << 30) + 1),
         };
-        let c = MinCase { recs, w, m, threads, sched };
+        let mut c = MinCase { recs, w, m, threads, sched };
+        if c.recs.len() >= 2 && rng.chance(1, 5) {
+            // several records under one id (the same read twice, mates named alike), some of them identical
+            let d = (c.recs.len() / 2).max(1);
+            for i in d..c.recs.len() {
+                if rng.chance(1, 2) {
+                    c.recs[i] = c.recs[i % d].clone();
+                }
+            }
+            c.sched = format!("{}/dup{}", c.sched, d);
+        }
         run_one(&c, "random", &mut rep, &mut traces, &mut branching);
     }
     // free-running contention: groups of identical reads, so that several workers meet the same minimiser for the
